@@ -243,6 +243,46 @@ func (in *Interp) learn(t *Term, val bool) {
 		in.learn(t.args[1], false)
 	}
 	P.known[t] = val
+	// integer facts for the term layer
+	if (t.op == OILt || t.op == OILe) && t.args[0].sort.K == SInt {
+		a, b := t.args[0], t.args[1]
+		tt := in.tt
+		if tt.pathUB == nil {
+			tt.pathUB = map[*Term]*big.Int{}
+			tt.pathNonNeg = map[*Term]bool{}
+		}
+		one := big.NewInt(1)
+		if val {
+			if b.op == OConst && a.op != OConst { // a < c / a <= c
+				u := new(big.Int).Set(b.big)
+				if t.op == OILt {
+					u.Sub(u, one)
+				}
+				if cur, ok := tt.pathUB[a]; !ok || u.Cmp(cur) < 0 {
+					tt.pathUB[a] = u
+				}
+			}
+			if a.op == OConst && b.op != OConst { // c < b / c <= b
+				if a.big.Sign() >= 0 {
+					tt.pathNonNeg[b] = true
+				}
+			}
+		} else {
+			// not (a < c) == a >= c ; not (a <= c) == a > c
+			if b.op == OConst && a.op != OConst && b.big.Sign() >= 0 {
+				tt.pathNonNeg[a] = true
+			}
+			if a.op == OConst && b.op != OConst { // not (c < b) == b <= c
+				u := new(big.Int).Set(a.big)
+				if t.op == OILe {
+					u.Sub(u, one)
+				}
+				if cur, ok := tt.pathUB[b]; !ok || u.Cmp(cur) < 0 {
+					tt.pathUB[b] = u
+				}
+			}
+		}
+	}
 	// bounds
 	setLo := func(x *Term, v uint64) {
 		if x.op != OConst && x.sort.K == SBV && x.sort.W <= 64 {
@@ -748,6 +788,7 @@ func (in *Interp) noteInconclusive(why string) {
 func (in *Interp) runPath(fn *ssa.Function, prefix []Decision) {
 	ex := in.ex
 	in.epoch++
+	in.tt.pathUB, in.tt.pathNonNeg = nil, nil
 	in.P = &PathState{prefix: prefix, views: map[*Array]*Obj{}, fresh: map[string]int{}, reached: map[string]bool{}}
 	in.solver.NewPath()
 	P := in.P
